@@ -1,10 +1,11 @@
 """C17 -- protocol discipline: welcome, acks, harmless errors, once-only."""
 import ast
+import os
 import re
 
 from ..events import (all_events, construct_of, handler_paths, handler_for,
                       frame_type, frame_fields, flat_events, handler_of,
-                      dispatch_table, is_client_value)
+                      dispatch_table, is_client_value, is_handler_frame)
 from ..report import render_path, Ctx
 from ..terms import show, plain, is_const, strip_wrappers, mentions, walk
 from ..e3 import pc_truth
@@ -27,6 +28,7 @@ EXPLANATION = (
     "that can leave a handler is the protocol Error (explicit raises plus the "
     "may-raise sites of E3). Not decided: non-object JSON, non-string field "
     "values.")
+EXPLANATION += ' A once-only marker is set only by its own handler.'
 
 DROP_CALLS = ("sendClose", "dropConnection", "loseConnection", "abortConnection",
               "failConnection", "_fail_connection", "failHandshake")
@@ -80,16 +82,27 @@ def run(ctx):
                % (frame_type(sends[0]) if sends else "nothing", show(w)[:40] if w else "-"))
     ctx.require("R17.welcome", len(wp), 1, "paths of the connection-open callback")
     nw = 0
+    from ..events import expand_merges
+    wslot = model.names.slot("Server", ("cfg", "welcome"))
     for p in model.paths("tap:makeService"):
-        for e, _ in all_events(p, ("construct",)):
-            if e["cls"] == "Server":
+        for e, _ in all_events(p, ("setattr",)):
+            if e["obj"][0] == "obj" and e["obj"][1] == "Server" and e["attr"] == wslot and \
+                    e["func"] == "Server.__init__":
                 nw += 1
-                kw = dict(e["kwargs"])
-                w = kw.get("welcome")
-                ok = w is not None and w[0] in ("dictlit", "kwdict")
+                ok = True
                 bad = ""
-                if ok:
-                    for k, v in w[1]:
+                for (_pc, w) in expand_merges(model.interp, e["value"], ()):
+                    if w[0] == "coll":
+                        items = [(a["elem"] if a.get("key") is None else (a["key"], a["elem"]))
+                                 for a in model.interp.coll_adds.get(w[1], [])]
+                        items = [it for it in items if isinstance(it, tuple) and len(it) == 2]
+                    elif w[0] in ("dictlit", "kwdict"):
+                        items = list(w[1])
+                    else:
+                        ok = False
+                        bad = "the welcome is %s" % show(w)[:50]
+                        break
+                    for k, v in items:
                         kk = k[1] if isinstance(k, tuple) else k
                         want = {"motd": "motd", "current_cli_version": "advertise-version",
                                 "error": "signal-error"}.get(kk)
@@ -127,7 +140,7 @@ def run(ctx):
         first = None
         for e, _ in all_events(p):
             if e["k"] == "send" or (e["k"] == "call" and
-                                    e["callee"].startswith("WebSocketServer.handle_")) \
+                                    is_handler_frame(model, e["callee"])) \
                     or e["k"] in EFFECT_KINDS:
                 first = e
                 break
@@ -172,8 +185,10 @@ def run(ctx):
     ctx.require("R17.bound", len(unbound_ok), 9, "dispatched handlers")
     # -- table
     ws = ctx.repo.classes["WebSocketServer"][1]
-    handlers = set(n for n in ws["methods"] if n.startswith("handle_"))
     dispatched = set(h for hs in tab.values() for h in hs)
+    prefix = os.path.commonprefix(sorted(dispatched))
+    handlers = set(n for n in ws["methods"] if len(prefix) >= 3 and n.startswith(prefix)) \
+        or set(dispatched)
     ok = handlers == dispatched
     ctx.ob("R17.table", "every handle_* method is dispatched and vice versa", ok, "",
            "" if ok else "handlers %s vs dispatched %s" % (
@@ -259,53 +274,20 @@ def run(ctx):
     for name in ONCE:
         if name not in tab:
             raise AnalysisError("R17.once: no dispatch arm for %r" % name)
-        h = handler_for(model, name)
-        hp = handler_paths(model, h)
-        succ = []
-        fail_flags = set()
-        for p in hp:
-            evs = [e for e, _ in all_events(p)]
-            raises = [e for e in evs if e["k"] == "raise" and e["cls"] == "Error"]
-            if raises:
-                idx = evs.index(raises[0])
-                exempt = any(e["k"] == "catch" for e in evs[:idx])
-                if not exempt:
-                    # which connection flags were truthy on this refusal?
-                    for (t, b, s) in raises[0]["pc"]:
-                        a = _flag_attr(t)
-                        if a and _truthy(t, b):
-                            fail_flags.add(a)
-                continue
-            if p.outcome.kind != "return":
-                continue
-            succ.append(p)
-        good = None
-        for flag in sorted(fail_flags):
-            allset = True
-            for p in succ:
-                truth_ok = False
-                evs = [e for e, _ in all_events(p)]
-                first_eff = None
-                for e in evs:
-                    if e["k"] in EFFECT_KINDS and e["func"] != "WebSocketServer.send":
-                        first_eff = e
-                        break
-                pc = first_eff["pc"] if first_eff else p.pc
-                for (t, b, s) in pc:
-                    if _flag_attr(t) == flag and not _truthy(t, b):
-                        truth_ok = True
-                sets = [e for e in evs if e["k"] == "setattr" and e["attr"] == flag and
-                        e["obj"][0] == "obj" and e["obj"][1] == "WebSocketServer" and
-                        _is_truthy_value(e["value"])]
-                if not (truth_ok and sets):
-                    allset = False
-            if allset and succ:
-                good = flag
+        h, good, fail_flags = once_flag_of(model, name)
         once_flag[h] = good
         ctx.ob("R17.once", "%s is once per connection" % h, good is not None, "",
                "guarded by %s" % good if good else
                "no connection flag is both tested before the effects of %s and set on "
                "its effect path (flags refused on: %s)" % (h, sorted(fail_flags)))
+        if good is not None:
+            # nothing but the handler itself marks the command as sent (boolean
+            # flags only: `a mailbox is held` is state, not a once-only marker)
+            for (e, own) in foreign_setters(model, h, good):
+                ctx.ob("R17.once", "%s set by %s" % (good, e["func"]), own, e,
+                       "" if own else "the flag that makes a second %s an error is "
+                       "set by %s, not by the %s handler: the connection's first "
+                       "%s is refused" % (name, e["func"], name, name))
     # -- remembered names (what was claimed / opened) are not forgotten while
     #    the command they validate can still be accepted
     ctx.rule("R17.names", "the remembered nameplate / mailbox name of a connection is "
@@ -343,7 +325,7 @@ def run(ctx):
                            "is still unset: a later %s naming something else is accepted "
                            "instead of being answered with an error" % (
                                "opened" if "mailbox" in e["attr"] else "claimed", flag,
-                               name_attrs[e["attr"]].replace("handle_", "")))
+                               name_attrs[e["attr"]]))
     ctx.ob("R17.names", "remembered names: %s" % sorted(name_attrs), len(name_attrs) >= 2, "",
            "" if len(name_attrs) >= 2 else "expected the mismatch checks of release and close")
     # -- alive
@@ -380,19 +362,92 @@ def run(ctx):
             extra = (" (the allocator's candidate is not proved absent from the app's "
                      "nameplates -- see C04 R04.src/R04.guard -- so claiming it can be "
                      "refused)")
-        ctx.ob("R17.escape", "%s lets %s escape (%s)" % (h, cls, construct_of(r) if r else "?"),
+        inv = dict((hh, mt) for mt, hs in dispatch_table(model).items() for hh in hs)
+        hname = "the %s handler" % inv[h] if h in inv else h
+        ctx.ob("R17.escape", "%s lets %s escape (%s)" % (hname, cls,
+                                                         construct_of(r) if r else "?"),
                False, r or "", "an exception other than the protocol Error leaves the "
                "handler: no answer is sent and Autobahn sees an internal error" + extra,
                render_path(p.events))
     e3 = e3mod.get(model)
     for f in e3.may_raise():
-        if any(s.startswith("WebSocketServer.handle_") for s in f.event["stack"]):
-            hs = [s for s in f.event["stack"] if s.startswith("WebSocketServer.handle_")]
+        if any(is_handler_frame(model, s) for s in f.event["stack"]):
+            hs = [s for s in f.event["stack"] if is_handler_frame(model, s)]
             ctx.ob("R17.escape", "may-raise %s at %s" % (f.may_raise, f.construct), False,
                    f.site, f.detail + " (reached from %s)" % hs[0].split(".")[1],
                    render_path(f.path.events) if f.path else None)
     ctx.ob("R17.escape", "handler exits analysed", True, "", "%d paths" % len(paths))
     ctx.assume("identifiers in commands are strings (asserts on them are assumed)")
+
+
+def once_flag_of(model, name):
+    """(handler, flag, refusal flags): the boolean / state attribute of the
+    connection that is tested before the effects of the handler of `name` and
+    set on its effect path"""
+    h = handler_for(model, name)
+    hp = handler_paths(model, h)
+    succ = []
+    fail_flags = set()
+    for p in hp:
+        evs = [e for e, _ in all_events(p)]
+        raises = [e for e in evs if e["k"] == "raise" and e["cls"] == "Error"]
+        if raises:
+            idx = evs.index(raises[0])
+            exempt = any(e["k"] == "catch" for e in evs[:idx])
+            if not exempt:
+                # which connection flags were truthy on this refusal?
+                for (t, b, s) in raises[0]["pc"]:
+                    a = _flag_attr(t)
+                    if a and _truthy(t, b):
+                        fail_flags.add(a)
+            continue
+        if p.outcome.kind != "return":
+            continue
+        succ.append(p)
+    good = None
+    for flag in sorted(fail_flags):
+        allset = True
+        for p in succ:
+            truth_ok = False
+            evs = [e for e, _ in all_events(p)]
+            first_eff = None
+            for e in evs:
+                if e["k"] in EFFECT_KINDS and e["func"] != "WebSocketServer.send":
+                    first_eff = e
+                    break
+            pc = first_eff["pc"] if first_eff else p.pc
+            for (t, b, s) in pc:
+                if _flag_attr(t) == flag and not _truthy(t, b):
+                    truth_ok = True
+            sets = [e for e in evs if e["k"] == "setattr" and e["attr"] == flag and
+                    e["obj"][0] == "obj" and e["obj"][1] == "WebSocketServer" and
+                    _is_truthy_value(e["value"])]
+            if not (truth_ok and sets):
+                allset = False
+        if allset and succ:
+            good = flag
+    return h, good, fail_flags
+
+
+def foreign_setters(model, h, flag):
+    """setattr events that set the once-only marker `flag` (to True) anywhere
+    but in the handler h itself: [(event, own?)]"""
+    out = []
+    for en in model.runtime_entries():
+        for p2 in model.paths(en):
+            for e, _ in all_events(p2, ("setattr",)):
+                if e["attr"] != flag or e["obj"][0] != "obj" or \
+                        e["obj"][1] != "WebSocketServer" or \
+                        e["value"] != ("const", True) or \
+                        e["func"].endswith("__init__"):
+                    continue
+                own = e["func"] == "WebSocketServer." + h
+                if not own and ("WebSocketServer." + h) in e["stack"]:
+                    i = e["stack"].index("WebSocketServer." + h)
+                    own = all(s.startswith("WebSocketServer.") and "<locals>" not in s
+                              for s in e["stack"][i:] + (e["func"],))
+                out.append((e, own))
+    return out
 
 
 def _flag_attr(t):
